@@ -137,6 +137,34 @@ def new_set(I_, items, st, ctx, k, node=None):
   return set_insert_all(I_, ref, items, st, ctx, lambda st2: k(st2, ref), node)
 
 
+def gobj(st, v):
+  """a concrete container that belongs to the program's global state (a class attribute, a module-level table) and has been
+  MUTATED on this path lives in a per-path overlay on the heap (2026-09-25: such mutations used to be out of reach; a
+  class-level default turned into a shared mutable set - seeded change C05_11 - could therefore not be judged).  Every consumer
+  of container values asks here first."""
+  if isinstance(v, (list, dict, set)) and not isinstance(v, Ref):
+    r = st.ghost.get(("$gobj", id(v)))
+    if r is not None:
+      return r
+  return v
+
+
+def gobj_mutable(I_, st, v, ctx, k, node=None):
+  """the heap copy of the concrete global container v on this path (created on first mutation) -> k(st, ref)"""
+  r = st.ghost.get(("$gobj", id(v)))
+  if r is not None:
+    return k(st, r)
+  def keep(st2, ref):
+    st2.ghost[("$gobj", id(v))] = ref
+    st2.ghost[("$gobj.keepalive", id(v))] = v
+    return k(st2, ref)
+  if isinstance(v, set):
+    return new_set(I_, list(v), st, ctx, keep, node)
+  if isinstance(v, dict):
+    return keep(st, st.alloc("dict", dict, dict((hashkey(kk), (kk, vv)) for kk, vv in v.items())))
+  return keep(st, st.alloc("list", list, list(v)))
+
+
 def is_value_key(I_, key, st):
   """an object used as a dict key whose class defines __eq__ in Python source (EthAddr, IPAddr ...): located by value"""
   if not isinstance(key, Ref):
@@ -1199,6 +1227,7 @@ def identity(I_, a, b, st):
 
 
 def contains(I_, container, item, st, ctx, k, node):
+  container = gobj(st, container)
   if isinstance(container, Union):
     return I_.split(container, st, lambda st2, c: contains(I_, c, item, st2, ctx, k, node))
   if isinstance(container, Ref):
@@ -1644,6 +1673,7 @@ def _norm_slice(I_, sl, length, st):
 
 
 def getitem(I_, obj, idx, st, ctx, k, node=None):
+  obj = gobj(st, obj)
   if isinstance(obj, Union):
     return I_.split(obj, st, lambda st2, o: getitem(I_, o, idx, st2, ctx, k, node))
   if isinstance(idx, Union):
@@ -1896,6 +1926,8 @@ def slist_elem_values(I_, st, ref, item):
 
 
 def setitem(I_, obj, idx, v, st, ctx, k, node=None):
+  if isinstance(obj, (list, dict)) and not isinstance(obj, Ref):
+    return gobj_mutable(I_, st, obj, ctx, lambda st2, r: setitem(I_, r, idx, v, st2, ctx, k, node), node)
   if isinstance(obj, Union):
     return I_.split(obj, st, lambda st2, o: setitem(I_, o, idx, v, st2, ctx, k, node))
   if isinstance(idx, Union):
@@ -1982,6 +2014,8 @@ def setitem(I_, obj, idx, v, st, ctx, k, node=None):
 
 
 def delitem(I_, obj, idx, st, ctx, k, node=None):
+  if isinstance(obj, (list, dict)) and not isinstance(obj, Ref):
+    return gobj_mutable(I_, st, obj, ctx, lambda st2, r: delitem(I_, r, idx, st2, ctx, k, node), node)
   if isinstance(obj, Union):
     return I_.split(obj, st, lambda st2, o: delitem(I_, o, idx, st2, ctx, k, node))
   if isinstance(idx, Union):
@@ -2029,6 +2063,7 @@ def delitem(I_, obj, idx, st, ctx, k, node=None):
 # ----------------------------------------------------------------------
 
 def iter_values(I_, v, st, ctx, k, node=None, live_ok=False):
+  v = gobj(st, v)
   if isinstance(v, Union):
     return I_.split(v, st, lambda st2, x: iter_values(I_, x, st2, ctx, k, node, live_ok))
   if isinstance(v, tuple):
